@@ -27,6 +27,7 @@ class KGen:
         self.rng = rng
         self.contingent = contingent
         self.family = family          # None | "neg": negative goal literals falsified by conditional effects
+        #                               | "relost": a literal true in all states, lost by cases, re-established by cases
         for _ in range(tries):
             try:
                 self._build()
@@ -87,6 +88,15 @@ class KGen:
                 self.add_constraints()
             else:
                 self.pick_neg_states()
+            return
+        if self.family == "relost":
+            self.skeleton = False
+            self.relost_family()
+            self.check_one_effect_per_ground_fluent()
+            if self.contingent:
+                self.add_constraints()
+            else:
+                self.pick_relost_states()
             return
         self.skeleton = rng.random() < 0.55
         chain = self.skeleton_actions() if self.skeleton else []
@@ -201,6 +211,83 @@ class KGen:
             states.reverse()
         else:
             rng.shuffle(states)
+        self.bits = states
+        for fe, b in zip(self.gfl, states[0]):
+            self.problem.set_initial_value(fe, b)
+
+    def relost_family(self):
+        """A literal L (g or not g) that holds in EVERY possible initial state; an action r0 that is needed for the goal
+        (it achieves h) and falsifies L under a condition on u, which differs between the possible states; actions that
+        re-establish L per case; L is a goal or the precondition of an action needed for the goal.  After r0 the
+        knowledge of L is gone and comes back only tag by tag, so the compiled plan needs the merge action of L although
+        L was universally true at the start."""
+        from unified_planning.model import InstantaneousAction
+        em, rng, p = self.em, self.rng, self.problem
+        atoms = list(self.gfl)
+        if len(atoms) < 3:
+            raise _Retry()
+        rng.shuffle(atoms)
+        g, u, h = atoms[0], atoms[1], atoms[2]
+        k = atoms[3] if len(atoms) > 3 else None
+        self.rl_g, self.rl_u, self.rl_h, self.rl_k = g, u, h, k
+        pos = rng.random() < 0.65
+        self.rl_pos = pos
+        L = g if pos else em.Not(g)
+        upos = rng.random() < 0.6
+        lu, nlu = (u, em.Not(u)) if upos else (em.Not(u), u)
+        r0 = InstantaneousAction("r0", OrderedDict(), self.env)
+        r0.add_effect(g, not pos, lu)
+        r0.add_effect(h, True)
+        r1 = InstantaneousAction("r1", OrderedDict(), self.env)
+        r1.add_effect(g, pos, lu)
+        acts = [r0, r1]
+        if rng.random() < 0.5:
+            r2 = InstantaneousAction("r2", OrderedDict(), self.env)
+            r2.add_effect(g, pos, nlu)
+            acts.append(r2)
+        p.add_goal(h)
+        if k is not None and rng.random() < 0.5:
+            r3 = InstantaneousAction("r3", OrderedDict(), self.env)      # L as a precondition
+            r3.add_precondition(L)
+            r3.add_precondition(h)
+            r3.add_effect(k, True)
+            acts.append(r3)
+            p.add_goal(k)
+            if rng.random() < 0.4:
+                p.add_goal(L)
+        else:
+            p.add_goal(L)
+        if rng.random() < 0.25:
+            x = InstantaneousAction("a0", OrderedDict(), self.env)
+            self.add_effect(x, [])
+            acts.append(x)
+        rng.shuffle(acts)
+        for a in acts:
+            p.add_action(a)
+            self.actions.append(a)
+
+    def relost_fixed(self):
+        """initial values the family needs: L true, h and k false"""
+        fixed = {self.rl_g: self.rl_pos, self.rl_h: False}
+        if self.rl_k is not None:
+            fixed[self.rl_k] = False
+        return fixed
+
+    def pick_relost_states(self):
+        rng = self.rng
+        fixed = self.relost_fixed()
+        base = [fixed.get(fe, rng.random() < 0.25) for fe in self.gfl]
+        iu = self.gfl.index(self.rl_u)
+        s0, s1 = list(base), list(base)
+        s0[iu], s1[iu] = False, True
+        states = [tuple(s0), tuple(s1)]
+        free = [i for i, fe in enumerate(self.gfl) if fe not in fixed and i != iu]
+        if free and rng.random() < 0.4:
+            t = list(rng.choice(states))
+            i = rng.choice(free)
+            t[i] = not t[i]
+            states.append(tuple(t))
+        rng.shuffle(states)
         self.bits = states
         for fe, b in zip(self.gfl, states[0]):
             self.problem.set_initial_value(fe, b)
@@ -398,6 +485,20 @@ class KGen:
                             hidden.append(a)
                 models = independent_models(self.gfl, hidden, cons, {})
                 break
+            if self.family == "relost":
+                cons = [("unknown", [self.rl_u])]
+                others = [fe for fe in self.gfl if fe not in self.relost_fixed() and fe != self.rl_u]
+                if others and rng.random() < 0.4:
+                    cons.append(rng.choice([("unknown", [others[0]]), ("or", [self.rl_u, others[0]])]))
+                    rng.shuffle(cons)
+                hidden = []
+                for _k, lits in cons:
+                    for l in lits:
+                        a = lit_parts(l)[0]
+                        if a not in hidden:
+                            hidden.append(a)
+                models = independent_models(self.gfl, hidden, cons, {})
+                break
             # the constraints draw their literals from a small pool of atoms, so that groups overlap (an atom in two
             # oneof groups, in a oneof and an or, positively and negatively, ...)
             pool = rng.sample(self.gfl, min(n, rng.choice([2, 3, 3, 4])))
@@ -424,6 +525,8 @@ class KGen:
         for fe in self.gfl:
             if fe not in hidden:
                 known[fe] = rng.random() < 0.3 and not (self.family == "neg" and fe == self.neg_g)
+                if self.family == "relost" and fe in self.relost_fixed():
+                    known[fe] = self.relost_fixed()[fe]
                 p.set_initial_value(fe, known[fe])
         for kind, lits in cons:
             if kind == "unknown":
@@ -691,7 +794,40 @@ def hand_corpus():
         build.__name__ = "neg_goal_%s%s%s" % (order, "_chain" if chain else "", "_guarded" if guarded else "")
         return build
 
+    def relost(kind):
+        # L (g, or not g) holds in every possible initial state; r0 (needed: it achieves h) falsifies L when u; r1 / r2
+        # re-establish L per case; L is a goal ("goal"), the precondition of a needed action ("precondition"), or a
+        # negative literal ("negative").  The conformant plan [r0, r1, (e)] needs merge_L in the compiled problem.
+        def build(env):
+            em = env.expression_manager
+            p, (g, u, h, k) = base(env, "relost", ["g", "u", "h", "k"])
+            pos = kind != "negative"
+            L = g() if pos else em.Not(g())
+            r0 = InstantaneousAction("r0", _env=env)
+            r0.add_effect(g, not pos, u())
+            r0.add_effect(h, True)
+            r1 = InstantaneousAction("r1", _env=env)
+            r1.add_effect(g, pos, u())
+            r2 = InstantaneousAction("r2", _env=env)
+            r2.add_effect(g, pos, em.Not(u()))
+            for a in (r0, r1, r2):
+                p.add_action(a)
+            p.add_goal(h())
+            if kind == "precondition":
+                e = InstantaneousAction("e", _env=env)
+                e.add_precondition(L)
+                e.add_precondition(h())
+                e.add_effect(k, True)
+                p.add_action(e)
+                p.add_goal(k())
+            else:
+                p.add_goal(L)
+            return p, [(pos, False, False, False), (pos, True, False, False)]
+        build.__name__ = "relost_" + kind
+        return build
+
     builders = [case_split_precondition, merge_needed, cancellation_needed, dominated_state,
+                relost("goal"), relost("precondition"), relost("negative"),
                 neg_goal("quiet-first", False, False), neg_goal("firing-first", False, False),
                 neg_goal("quiet-first", True, False), neg_goal("quiet-first", False, True)]
     return [HandK(f.__name__, f) for f in builders]
